@@ -540,6 +540,14 @@ func (rw *rewriter) preOS(c *astutil.Cursor) {
 			}
 		}
 	case *ast.CallExpr:
+		// R9, tuning knobs: the buffer size handed to NewLineReader becomes a
+		// per-case knob (simos.Knob returns the literal when no knob is set)
+		if id, isID := tn.Fun.(*ast.Ident); isID && id.Name == "NewLineReader" && len(tn.Args) == 2 {
+			if lit, isLit := tn.Args[1].(*ast.BasicLit); isLit && lit.Kind == token.INT {
+				tn.Args[1] = call(ast.NewIdent("uint"), call(rw.sos("Knob"), &ast.BasicLit{Kind: token.STRING, Value: `"linereader"`}, lit))
+			}
+			return
+		}
 		sel, ok := tn.Fun.(*ast.SelectorExpr)
 		if !ok {
 			return
